@@ -97,5 +97,5 @@ func genSub(t *rapid.T) SubCase {
 }
 
 func TestSubscriptionEvents(t *testing.T) {
-	vfrun.Run(t, vfrun.Prop[SubCase]{Property: "C01", Name: "TestSubscriptionEvents", Gen: genSub, Check: checkSub}, vfrun.N(3000, 80000))
+	vfrun.Run(t, vfrun.Prop[SubCase]{Property: "C01", Name: "TestSubscriptionEvents", Gen: genSub, Check: checkSub}, vfrun.N(3000, 240000))
 }
